@@ -344,12 +344,15 @@ def randomised(chk, ureg, rng, n):
         m = M(v, e, u0)
         try:
             c = m.to(u1)
-            # slope by differences of the plain conversion
-            q0, q1 = Q(v, u0).to(u1).magnitude, Q(v + e, u0).to(u1).magnitude
+            # conversions are affine: the slope is a difference quotient of the plain conversion over a step of the order of the value
+            h = max(abs(v), 1.0)
+            q0, q1 = Q(v, u0).to(u1).magnitude, Q(v + h, u0).to(u1).magnitude
+            qa = Q(v - h, u0).to(u1).magnitude
         except Exception as ex:
             chk.diverge({"kind": "random-conv", "clause": "raises", "exc": type(ex).__name__}, {"v": v, "e": e, "from": u0, "to": u1})
             continue
-        ok = close(c.value.magnitude, q0, rel=1e-12, ab=1e-300) and close(c.error.magnitude, abs(q1 - q0), rel=1e-6 + 1e-9 / rel, ab=1e-300)
+        slope = (q1 - qa) / (2 * h)
+        ok = close(c.value.magnitude, q0, rel=1e-12, ab=1e-300) and close(c.error.magnitude, abs(slope) * e, rel=1e-9, ab=1e-300)
         if ok and not any("degree" in x and "Rankine" not in x for x in (u0, u1)):
             ok = close(c.rel, m.rel, rel=1e-9)
         if not ok:
